@@ -192,7 +192,7 @@ CHECKS = {
              "recorded step (pushed frame contents, delivery counter and reported source, registers, power state, timer targets) with monitors "
              "for saved frames (incl. the source each was entered for) and expected resume addresses; every third script also runs on a Rust runtime "
              "built with keyboard interrupts disabled (the spec is told: KEYI then neither arms nor wakes), and handlers that re-enable interrupts nest two to seven levels deep; StatusNotLost: a status bit goes away only "
-             "by a firmware write or at the RETI of the handler entered for it.",
+             "by a firmware write or at the RETI of the handler entered for it. Growth module run as an additional campaign (DRIFT only, no property sentence covers it): LoopDetect.tla - the Rust core's execution-loop detector, whose mainline is defined by the interrupt state of each step (handlers of hardware interrupts and RETI are invisible, the IR handler is not) - model-checked (search = declarative loops within reach, sound, longest, exact repeat count, transparent) and bound to the real LoopDetector by trace validation (TraceLoopDetect.tla).",
         design_ref="DESIGN.md section 4 (C12)",
         note="Trusted: TLC, vh rt module, harness/py/machine_harness.py. One defect repaired (fix: a24bc1d, Rust RETI acknowledged the live irq_source latch); open findings on the Python machine (master-enable override, OFF = HALT, pending flag not re-armed, stale source attribution) and the Rust core (stray RETI clears a pending bit) are listed in known_findings.json. The debounce automaton itself is covered by C14.",
         technique="TLA+ spec (Interrupts.tla) + TLC exhaustive/simulate + trace validation of both machine models",
@@ -331,7 +331,7 @@ ENGINES = [
     dict(name="isa", path="spec/isa", serves_properties=["C01", "C02", "C03", "C04", "C05", "C06", "C07", "C09"], kind_free_text="TLA+ SC62015 instruction format (table + grammar) and batch judges"),
     dict(name="lcd", path="spec/lcd", serves_properties=["C15"], kind_free_text="TLA+ HD61202 protocol + pixel map specs"),
     dict(name="sched", path="spec/sched", serves_properties=["C18"], kind_free_text="TLA+ virtual-time scheduler spec + trace spec"),
-    dict(name="machine", path="spec/machine", serves_properties=["C12", "C13", "C16"], kind_free_text="TLA+ timers / interrupts / machine specs + trace specs"),
+    dict(name="machine", path="spec/machine", serves_properties=["C12", "C13", "C16"], kind_free_text="TLA+ timers / interrupts / machine / loop-detector specs + trace specs"),
     dict(name="regs", path="spec/regs", serves_properties=["C08"], kind_free_text="TLA+ register-file state machine + trace spec"),
 ]
 
